@@ -635,6 +635,18 @@ func (s *Sim) Exec(i int, st *Step) (ran bool) {
 		return s.stepShutdown()
 	case "quiesce":
 		return s.stepQuiesce(st.Rounds)
+	case "diskfull":
+		// the disk is full from now on: writing statements fail, reads succeed, for the next N store
+		// transactions (N = 0: until the final quiesce, a restart, or a later diskfull step)
+		if !s.alive {
+			return false
+		}
+		s.ctl.FailWrites = st.N
+		if st.N == 0 {
+			s.ctl.FailWrites = 1 << 30
+		}
+		s.Stats["disk_full_period"]++
+		return true
 	case "drain":
 		// finish what is queued without letting time pass (no new background period starts)
 		if !s.alive {
@@ -1270,6 +1282,9 @@ func (s *Sim) autoRound(dt int64) {
 					}
 					if sub == "store" && fr.Intn(20) == 0 {
 						ws.Sql = &faultdb.Fault{Where: pick(fr, []string{"stmt", "stmt", "commit", "begin"}), At: fr.Intn(6), Err: pick(fr, []string{"full", "ioerr", "busy"})}
+						if ws.Sql.Where == "commit" && fr.Intn(2) == 0 {
+							ws.Sql.Err = "txdone"
+						}
 					}
 				}
 			}
@@ -1338,6 +1353,9 @@ func (s *Sim) stepQuiesce(rounds int) bool {
 	}
 	s.fair = true
 	defer func() { s.fair = false }()
+	if s.ctl != nil {
+		s.ctl.FailWrites = 0 // faults stop
+	}
 	step := s.Cfg.SignalTimeoutMs
 	if step <= 0 {
 		step = 1
